@@ -54,6 +54,12 @@ CHECKS["C03"] = dict(
     note="Trusted: TLC, canonicalisation of callback values, the W3 table construction. Items outside the block (known finding D12c) are not watched.",
     design="§4 C03")
 
+CHECKS["C17"] = dict(
+    technique="ConfigMode.tla model-checked by TLC (shared future as generations; all interleavings of sleepers/switches/timeouts; always-renew control refuted) + TLC trace validation of real config_sleep/set_config_mode executions on the virtual loop + facade on/off records judged by TLC",
+    text="TLC explores every interleaving of 3 sleepers, 3 switches and delays <=3 ticks: the table is never a mixture, nobody oversleeps, every sleeper waits on a future the next switch resolves. Real executions (1..20 concurrent sleeper tasks, seeded delays, switch times, mid-sleep cancellations, four wake-order policies) are logged in virtual milliseconds and validated by TLC: a wake must happen at the switch instant or at the sleeper's own deadline, time may not advance past a due wake-up, every switch installs the complete target table. The facade rule is checked on real facades of every platform for every on/off combination of pumps and blowers, including a reconnect history.",
+    note="Trusted: TLC, the virtual loop (ms grid snapping + rank offsets), derivation of member lists from the config classes. set_config_mode before any sleep raises by design (asserted in code) and is not exercised.",
+    design="§4 C17")
+
 NOT_YET = {}
 
 
